@@ -9,6 +9,10 @@
                     (the short cell record is only chosen when all four fields fit a byte).
   R-DEFAULT-SKIP    the PALETTE chunk may only be skipped for a palette that *is* the default: Palette::is_default can return
                     true only when len(colors) == 16 is established.
+  R-CHUNK-GUARD     a chunk may be left out only under a reviewed condition: the crate-local boolean predicates on which any
+                    add_ztxt_chunk call of the writer is control dependent are exactly Buffer::has_sauce (no SAUCE, no chunk)
+                    and Palette::is_default (R-DEFAULT-SKIP); iteration, error propagation and size comparisons are not
+                    predicates in this sense.  A new `if font.is_default() { continue }` is a new way of losing a part.
   R-GUARDED-SETTER  while the loader fills a layer, the flag fields that make Layer::{set_offset,set_size,set_char} return early
                     still have their constructor values (file-supplied flags are applied afterwards)."""
 import re
@@ -40,7 +44,7 @@ def strings_of(e, out, depth=0):
 def run(chk):
     f = F.load()
     g, ip = P.shared(f)
-    chk.rules = ["R-LOSSLESS-PATH", "R-CHUNK-VOCAB", "R-STRING-LEN", "R-NO-TRUNC", "R-DEFAULT-SKIP", "R-GUARDED-SETTER"]
+    chk.rules = ["R-LOSSLESS-PATH", "R-CHUNK-VOCAB", "R-STRING-LEN", "R-NO-TRUNC", "R-DEFAULT-SKIP", "R-CHUNK-GUARD", "R-GUARDED-SETTER"]
     chk.assumptions = ["png / base64 crates transport zTXt chunk text unchanged", "exact reproduction of cell values is not decided (value-level)"]
     reviewed = {}
     try:
@@ -334,6 +338,52 @@ def run(chk):
         # the writer's PALETTE chunk must be control dependent on is_default only
         pal_calls = [bi for bi, t in wb.calls() if (t["callee"].get("resolved") or "").endswith("Palette::is_default")]
         chk.anchor(len(pal_calls) == 1, "R-DEFAULT-SKIP", "the writer consults Palette::is_default once")
+    # ------------------------------------------------------------------ R-CHUNK-GUARD
+    ALLOWED_SKIP = {"buffers::Buffer::has_sauce": "a buffer without SAUCE data has nothing to put into a SAUCE chunk",
+                    "palette_handling::Palette::is_default": "the loader starts from the default palette; exactness of is_default is R-DEFAULT-SKIP"}
+    chunk_sites = [(bi, t) for bi, t in wb.calls() if (t["callee"].get("resolved") or "").endswith("add_ztxt_chunk")]
+    chk.floor("R-CHUNK-GUARD", "chunk write sites in the writer", len(chunk_sites), 8)
+    preds = {}
+    for bi, t in chunk_sites:
+        for d in wb.control_deps(bi):
+            tt = wb.blocks[d]["term"]
+            if tt["k"] != "switch":
+                continue
+            pj = tt["discr"].get("copy") or tt["discr"].get("move")
+            if pj is None or pj.get("p"):
+                continue
+            # the discriminant local is (the negation of) the boolean result of a call
+            l = pj["l"]
+            for _ in range(3):
+                ds = wb.defs.get(l, [])
+                if len(ds) != 1:
+                    break
+                x, k = ds[0]
+                if k == "term":
+                    ct = wb.blocks[x]["term"]
+                    path = ct["callee"].get("resolved") or ct["callee"].get("path") or ""
+                    rty = wb.tys(l)
+                    if rty == "bool" and not re.match(r"^(std|core|alloc)::|^<(std|core|alloc)::", path):
+                        preds.setdefault(path, []).append((bi, ct.get("line")))
+                    break
+                rv = wb.blocks[x]["stmts"][k]["rv"]
+                if rv["k"] == "un" and rv.get("op") == "Not":
+                    q = rv["a"].get("copy") or rv["a"].get("move")
+                elif rv["k"] == "use":
+                    q = rv["a"].get("copy") or rv["a"].get("move")
+                else:
+                    break
+                if q is None or q.get("p"):
+                    break
+                l = q["l"]
+    chk.floor("R-CHUNK-GUARD", "predicates that guard a chunk", len(preds), 2)
+    for path, sites in sorted(preds.items()):
+        ok = path in ALLOWED_SKIP
+        chk.obligation(ok)
+        if not ok:
+            chk.finding("IcyDraw::to_bytes|chunk-guard|%s" % path, rule="R-CHUNK-GUARD", where="%s:%s" % (wb.file, sites[0][1]), fn="IcyDraw::to_bytes",
+                        what="%d chunk write(s) are skipped depending on %s, which is not one of the reviewed skip conditions (%s): the part of the document it leaves out is not in the file" % (
+                            len({b_ for b_, _ in sites}), path, ", ".join(sorted(x.split("::")[-1] for x in ALLOWED_SKIP))))
     # ------------------------------------------------------------------ R-GUARDED-SETTER
     an3 = Analyzer(f, interproc=ip)
     an3.analyze(rb, collect=False)
